@@ -218,4 +218,332 @@ def writeAt (data : List Nat) (pos : Nat) (p : List Nat) : List Nat × Nat :=
 
 end Mem
 
+/-! ### The native filesystem (Linux, through `webdav.Dir`): tree-level rules -/
+namespace Os
+
+/-- `os.Mkdir` below a `Dir`. -/
+def mkdir (t : Tree) (p : Path) : Except Err Tree :=
+  match Mem.walk t p with
+  | .error .invalid => .error .notDir
+  | .error e => .error e
+  | .ok _ =>
+    if (get t p).isSome then .error .exist       -- includes the root directory itself
+    else .ok (t ++ [(p, .dir)])
+
+/-- `Dir.RemoveAll`: the root is refused; a missing name (or missing parent) is not an error;
+a name below a regular file is (ENOTDIR). -/
+def removeAll (t : Tree) (p : Path) : Except Err Tree :=
+  if p = [] then .error .invalid
+  else match Mem.walk t p with
+    | .error .notExist => .ok t
+    | .error _ => .error .notDir
+    | .ok _ => .ok (outside p t)
+
+def stat (t : Tree) (p : Path) : Except Err Entry :=
+  match Mem.walk t p with
+  | .error .invalid => .error .notDir
+  | .error e => .error e
+  | .ok _ =>
+    match get t p with
+    | some e => .ok e
+    | none => .error .notExist
+
+/-- `Dir.Rename` = root checks + rename(2). -/
+def rename (t : Tree) (a b : Path) : Except Err Tree :=
+  if a = [] ∨ b = [] then .error .invalid
+  else match Mem.walk t a with
+    | .error _ => .error .notExist
+    | .ok _ =>
+      match get t a with
+      | none => .error .notExist
+      | some ea =>
+        match Mem.walk t b with
+        | .error _ => .error .notExist
+        | .ok _ =>
+          if a = b then .ok t
+          else if under a b then .error .invalid
+          else
+            let blocked : Option Err :=
+              match ea, get t b with
+              | _, none => none
+              | .file _, some (.file _) => none
+              | .file _, some .dir => some .isDir
+              | .dir, some (.file _) => some .notDir
+              | .dir, some .dir => if (kidsOf t b).isEmpty then none else some .notEmpty
+            match blocked with
+            | some e => .error e
+            | none => .ok (outside b (outside a t) ++ rebase a b (sub t a))
+
+/-- open(2) as reached through `Dir.OpenFile`. -/
+def openFile (t : Tree) (p : Path) (f : Mem.Flags) : Except Err (Tree × Mem.OpenInfo) :=
+  match Mem.walk t p with
+  | .error _ => .error .notExist
+  | .ok _ =>
+    match get t p with
+    | none =>
+      if f.create then .ok (t ++ [(p, .file [])], ⟨p, false, []⟩) else .error .notExist
+    | some .dir =>
+      if f.create && f.excl then .error .exist
+      else if f.create || f.trunc || f.wr then .error .isDir
+      else .ok (t, ⟨p, true, kidsOf t p⟩)
+    | some (.file _) =>
+      if f.create && f.excl then .error .exist
+      else if f.trunc then .ok (setEntry t p (.file []), ⟨p, false, []⟩)
+      else .ok (t, ⟨p, false, []⟩)
+
+end Os
+
+/-! ## Open files and operation histories (shared state; `Mem.step` and `Os.step` differ in the rules) -/
+
+inductive Target where
+  | live (p : Path)
+  | orphan (i : Nat)
+  deriving DecidableEq, Repr
+
+/-- An open file: `memFile` / `*os.File`. Directory handles carry the listing taken when
+they were opened and never look at `target` again. -/
+structure Handle where
+  target : Target
+  pos : Nat
+  isDir : Bool
+  kids : List Name
+  acc : Nat
+  app : Bool
+  deriving DecidableEq, Repr
+
+structure State where
+  tree : Tree := []
+  orphans : List (List Nat) := []
+  handles : List Handle := []
+  deriving DecidableEq, Repr
+
+inductive Op where
+  | mkdir (p : Path)
+  | open (p : Path) (f : Mem.Flags)
+  | write (h : Nat) (data : List Nat)
+  | read (h n : Nat)
+  | seek (h : Nat) (off : Int) (whence : Nat)
+  | readdir (h : Nat) (count : Int)
+  | rename (a b : Path)
+  | removeAll (p : Path)
+  | stat (p : Path)
+  | fstat (h : Nat)
+  deriving DecidableEq, Repr
+
+/-- Results, with error kinds collapsed (the property speaks of success or failure). -/
+inductive Res where
+  | ok | err | badHandle
+  | opened (h : Nat) (isDir : Bool)
+  | wrote (n : Nat)
+  | data (bs : List Nat)
+  | eof
+  | pos (n : Nat)
+  | listing (names : List Name)   -- Readdir: the returned batch
+  | info (isDir : Bool) (size : Nat)
+  deriving DecidableEq, Repr
+
+def fileData (s : State) (h : Handle) : List Nat :=
+  match h.target with
+  | .live p => (match get s.tree p with | some (.file d) => d | _ => [])
+  | .orphan i => s.orphans.getD i []
+
+def setFileData (s : State) (h : Handle) (d : List Nat) : State :=
+  match h.target with
+  | .live p => { s with tree := setEntry s.tree p (.file d) }
+  | .orphan i => { s with orphans := s.orphans.set i d }
+
+def setPos (s : State) (i : Nat) (pos : Nat) : State :=
+  { s with handles := s.handles.modify i (fun h => { h with pos := pos }) }
+
+/-- Unlinked regular files stay reachable through the handles that have them open. -/
+def orphanEntries (s : State) : Tree → State
+  | [] => s
+  | (q, .file d) :: es =>
+    orphanEntries { s with
+      orphans := s.orphans ++ [d],
+      handles := s.handles.map (fun h =>
+        if h.target = .live q then { h with target := .orphan s.orphans.length } else h) } es
+  | (_, .dir) :: es => orphanEntries s es
+
+def effRemove (s : State) (p : Path) : State :=
+  { orphanEntries s (sub s.tree p) with tree := outside p s.tree }
+
+def effRename (s : State) (a b : Path) (t2 : Tree) : State :=
+  let s1 := orphanEntries s (outside a (sub s.tree b))
+  { s1 with
+    tree := t2,
+    handles := s1.handles.map (fun h =>
+      match h.target with
+      | .live q => if under a q then { h with target := .live (b ++ q.drop a.length) } else h
+      | .orphan _ => h) }
+
+def addHandle (s : State) (t : Tree) (info : Mem.OpenInfo) (f : Mem.Flags) : State × Res :=
+  ({ s with tree := t, handles := s.handles ++ [⟨.live info.path, 0, info.isDir, info.kids, f.acc, f.append⟩] },
+   .opened s.handles.length info.isDir)
+
+/-- `Seek` arithmetic shared by `memFile.Seek` and lseek(2) on a regular file. -/
+def seekPos (len pos : Nat) (off : Int) (whence : Nat) : Option Nat :=
+  let npos : Int :=
+    if whence = 0 then off
+    else if whence = 1 then (pos : Int) + off
+    else if whence = 2 then (len : Int) + off
+    else -1
+  if npos < 0 then none else some npos.toNat
+
+def statRes : Except Err Entry → Res
+  | .ok (.file d) => .info false d.length
+  | .ok .dir => .info true 0
+  | .error _ => .err
+
+/-- Steps that do not depend on the flavour once the handle is known to be usable. -/
+def fstatRes (s : State) (hd : Handle) : Res :=
+  if hd.isDir then .info true 0 else .info false (fileData s hd).length
+
+namespace Mem
+
+/-- One `memFS` / `memFile` call. -/
+def step (s : State) : Op → State × Res
+  | .mkdir p =>
+    match Mem.mkdir s.tree p with
+    | .ok t => ({ s with tree := t }, .ok)
+    | .error _ => (s, .err)
+  | .open p f =>
+    match Mem.openFile s.tree p f with
+    | .error _ => (s, .err)
+    | .ok (t, info) => addHandle s t info f
+  | .write h data =>
+    match s.handles[h]? with
+    | none => (s, .badHandle)
+    | some hd =>
+      if hd.isDir then (s, .err)
+      else
+        let r := Mem.writeAt (fileData s hd) hd.pos data
+        (setPos (setFileData s hd r.1) h r.2, .wrote data.length)
+  | .read h n =>
+    match s.handles[h]? with
+    | none => (s, .badHandle)
+    | some hd =>
+      if hd.isDir then (s, .err)
+      else
+        let d := fileData s hd
+        if hd.pos ≥ d.length then (s, .eof)
+        else
+          let chunk := (d.drop hd.pos).take n
+          (setPos s h (hd.pos + chunk.length), .data chunk)
+  | .seek h off whence =>
+    match s.handles[h]? with
+    | none => (s, .badHandle)
+    | some hd =>
+      match seekPos (if hd.isDir then 0 else (fileData s hd).length) hd.pos off whence with
+      | none => (s, .err)
+      | some np => (setPos s h np, .pos np)
+  | .readdir h count =>
+    match s.handles[h]? with
+    | none => (s, .badHandle)
+    | some hd =>
+      if !hd.isDir then (s, .err)
+      else if hd.pos ≥ hd.kids.length then (s, if count > 0 then .eof else .listing [])
+      else if count > 0 then
+        let np := min (hd.pos + count.toNat) hd.kids.length
+        (setPos s h np, .listing ((hd.kids.drop hd.pos).take (np - hd.pos)))
+      else
+        -- `old = 0`: the whole snapshot, also after a partial read
+        (setPos s h hd.kids.length, .listing hd.kids)
+  | .rename a b =>
+    if a = b then (s, .ok)
+    else match Mem.rename s.tree a b with
+      | .error _ => (s, .err)
+      | .ok t2 => (effRename s a b t2, .ok)
+  | .removeAll p =>
+    match Mem.removeAll s.tree p with
+    | .error _ => (s, .err)
+    | .ok _ => (effRemove s p, .ok)
+  | .stat p => (s, statRes (Mem.stat s.tree p))
+  | .fstat h =>
+    match s.handles[h]? with
+    | none => (s, .badHandle)
+    | some hd => (s, fstatRes s hd)
+
+end Mem
+
+namespace Os
+
+/-- write(2) at the handle's offset (at the end for `O_APPEND`); a zero-length write does nothing. -/
+def writeAt (data : List Nat) (pos : Nat) (app : Bool) (p : List Nat) : List Nat × Nat :=
+  if p = [] then (data, pos)
+  else Mem.writeAt data (if app then data.length else pos) p
+
+/-- One `webdav.Dir` / `*os.File` call. -/
+def step (s : State) : Op → State × Res
+  | .mkdir p =>
+    match Os.mkdir s.tree p with
+    | .ok t => ({ s with tree := t }, .ok)
+    | .error _ => (s, .err)
+  | .open p f =>
+    match Os.openFile s.tree p f with
+    | .error _ => (s, .err)
+    | .ok (t, info) => addHandle s t info f
+  | .write h data =>
+    match s.handles[h]? with
+    | none => (s, .badHandle)
+    | some hd =>
+      if hd.isDir || hd.acc == 0 then (s, .err)
+      else
+        let r := Os.writeAt (fileData s hd) hd.pos hd.app data
+        (setPos (setFileData s hd r.1) h r.2, .wrote data.length)
+  | .read h n =>
+    match s.handles[h]? with
+    | none => (s, .badHandle)
+    | some hd =>
+      if hd.isDir || hd.acc == 1 then (s, .err)
+      else if n = 0 then (s, .data [])
+      else
+        let d := fileData s hd
+        if hd.pos ≥ d.length then (s, .eof)
+        else
+          let chunk := (d.drop hd.pos).take n
+          (setPos s h (hd.pos + chunk.length), .data chunk)
+  | .seek h off whence =>
+    match s.handles[h]? with
+    | none => (s, .badHandle)
+    | some hd =>
+      if hd.isDir then (s, .err)     -- unspecified (filesystem dependent); never generated
+      else match seekPos (fileData s hd).length hd.pos off whence with
+        | none => (s, .err)
+        | some np => (setPos s h np, .pos np)
+  | .readdir h count =>
+    match s.handles[h]? with
+    | none => (s, .badHandle)
+    | some hd =>
+      if !hd.isDir then (s, .err)
+      else if hd.pos ≥ hd.kids.length then (s, if count > 0 then .eof else .listing [])
+      else if count > 0 then
+        let np := min (hd.pos + count.toNat) hd.kids.length
+        (setPos s h np, .listing ((hd.kids.drop hd.pos).take (np - hd.pos)))
+      else
+        -- the remaining entries
+        (setPos s h hd.kids.length, .listing (hd.kids.drop hd.pos))
+  | .rename a b =>
+    match Os.rename s.tree a b with
+    | .error _ => (s, .err)
+    | .ok t2 => if a = b then (s, .ok) else (effRename s a b t2, .ok)
+  | .removeAll p =>
+    match Os.removeAll s.tree p with
+    | .error _ => (s, .err)
+    | .ok _ => (effRemove s p, .ok)
+  | .stat p => (s, statRes (Os.stat s.tree p))
+  | .fstat h =>
+    match s.handles[h]? with
+    | none => (s, .badHandle)
+    | some hd => (s, fstatRes s hd)
+
+end Os
+
+def runWith (step : State → Op → State × Res) : State → List Op → State × List Res
+  | s, [] => (s, [])
+  | s, op :: ops =>
+    let r := step s op
+    let rest := runWith step r.1 ops
+    (rest.1, r.2 :: rest.2)
+
 end NetVerif.Model.FS
